@@ -50,6 +50,7 @@ struct Driver {
   int inv_index = 0;
   int fork_index = 0;
   int builds_done = 0;
+  bool dead = false;
   std::string& log;
 
   Driver(Tape& t, const Profile& p, RunResult& r) : tape(t), prof(p), rr(r), log(r.decoded) {}
@@ -387,6 +388,8 @@ struct Driver {
   }
 
   void DoBuild() {
+    // (K15 can delete the manifest; everything after that only repeats it)
+    if (!w.k.Exists("build.ninja")) { dead = true; return; }
     InvPlan p = MakeBuildPlan();
     PlanProcessFaults(p);
     Note(PlanText(p));
@@ -497,7 +500,7 @@ struct Driver {
       rr.stats.sig = Hash64(x, sizeof x);
     }
     int nops = prof.min_ops + (int)H((uint32_t)(prof.max_ops - prof.min_ops + 1));
-    for (int i = 0; i < nops; i++) {
+    for (int i = 0; i < nops && !dead; i++) {
       if (i == 0 && H(8) != 0) { DoBuild(); continue; }
       int ws[] = {prof.w_build, prof.w_edit, prof.w_touch, prof.w_del_out, prof.w_change_cmd, prof.w_change_rsp,
                   prof.w_regen, prof.w_del_log, prof.w_del_depfile};
